@@ -503,7 +503,10 @@ func (fc *funcContext) ResolveGoto(from, to *gotoLabelDesc, index int) {
 func (fc *funcContext) FindLabel(block *codeBlock, gotoLabel *gotoLabelDesc, i int) bool {
 	target := block.GetLabel(gotoLabel.Name)
 	if target != nil {
-		if gotoLabel.NumActiveLocalVars > target.NumActiveLocalVars && block.RefUpvalue {
+		// the label's block is still open: whether one of its locals is captured is not
+		// known yet (the closure may follow in the text and run before this jump), so a
+		// goto that leaves the scope of locals always closes them
+		if gotoLabel.NumActiveLocalVars > target.NumActiveLocalVars {
 			fc.Code.SetOpCode(gotoLabel.Pc-1, OP_CLOSE)
 			fc.Code.SetA(gotoLabel.Pc-1, target.NumActiveLocalVars)
 		}
